@@ -25,6 +25,7 @@ import KafkaVerif.Props.C11
 import KafkaVerif.Lemmas.TransportConnC17
 import KafkaVerif.Props.C02
 import KafkaVerif.Props.C01
+import KafkaVerif.Model.SplitMerge
 
 namespace KV.C17
 open KV KV.Reader KV.ConnOps
@@ -388,5 +389,53 @@ theorem writer_resume_after_cut {α : Type} (d : Decoder α) (s : Reader.RS) (hc
     -- … while the Writer machine ends an attempt WITHOUT error only when the broker applied and acknowledged it:
     (∃ P, st.pws pw = some P ∧ P.sender = .attempting b k (some .acked)) :=
   ⟨readResponse_cut_is_error d s hcut, C01.ok_needs_broker_ack cfg st st' pw b k hdone⟩
+
+/-! ### split requests: one lost part never yields a result that looks complete -/
+
+section SplitMerge
+open KV.SplitMerge
+
+/-- strict merges (ListGroups, DescribeGroups, DescribeConfigs): the call succeeds iff every part did, and then it
+returns exactly the parts' entries in request order -/
+theorem mergeStrict_ok {α : Type} : ∀ (rs : List (Except String (List α))) (out : List α),
+    mergeStrict rs = .ok out ↔ (∀ r ∈ rs, isOk r = true) ∧ out = rs.flatMap entriesOf := by
+  intro rs
+  induction rs with
+  | nil =>
+    intro out
+    simp only [mergeStrict, Except.ok.injEq, List.not_mem_nil, false_imp_iff, implies_true, true_and, List.flatMap_nil]
+    exact eq_comm
+  | cons r rest ih =>
+    intro out
+    cases r with
+    | error e => simp [mergeStrict, isOk]
+    | ok xs =>
+      simp only [mergeStrict]
+      cases hm : mergeStrict rest with
+      | error e =>
+        simp only [reduceCtorEq, false_iff, not_and]
+        intro hall
+        have := (ih (rest.flatMap entriesOf)).mpr ⟨fun r hr => hall r (List.mem_cons_of_mem _ hr), rfl⟩
+        rw [hm] at this; cases this
+      | ok ys =>
+        have := (ih ys).mp hm
+        simp only [Except.ok.injEq, List.mem_cons, forall_eq_or_imp, isOk, true_and, List.flatMap_cons, entriesOf]
+        constructor
+        · intro h; exact ⟨this.1, by rw [← h, this.2]⟩
+        · intro h; rw [h.2, this.2]
+
+/-- … so a part whose response was lost (any cut position: `readResponse_cut_is_error`) fails the whole call -/
+theorem lost_part_fails_call {α : Type} (rs : List (Except String (List α))) (e : String) (h : .error e ∈ rs) :
+    ∃ e', mergeStrict rs = .error e' := by
+  cases hm : mergeStrict rs with
+  | error e' => exact ⟨e', rfl⟩
+  | ok out =>
+    have := ((mergeStrict_ok rs out).mp hm).1 _ h
+    simp [isOk] at this
+
+/-- the three Merge methods have the strict shape in the code as it is now (regenerated) -/
+theorem strict_merges_hold : Gen.ConnLegacy.strictMerges.all (·.2) = true := by decide
+
+end SplitMerge
 
 end KV.C17
